@@ -258,6 +258,38 @@ def rule_wrapper_pure(fx, col):
         col.add('WRAPPER-PURE', '%s|nothing else' % fname, not others, 'other calls into the crate: %s' % others)
 
 
+def rule_write_reply(fx, col):
+    """Any body of the crate (also one added later) that WRITES a container (store / swap / compare_and_swap / rcu) and then answers
+    with a value it got from a SEPARATE read of the same container (load / load_full / the cache's revalidation) instead of the
+    write's own reply: between the two another writer may come in, so the caller is told about a value that was not the one
+    replaced (C04: handed back twice / never; C05, C06: false success; C13: `load_full().expect(..)` after a lost exchange)."""
+    WR = ('store', 'swap', 'compare_and_swap', 'rcu')
+    RD = ('load', 'load_full', 'load_no_revalidate', 'revalidate')
+    n = 0
+    for b in fx.lib.bodies:
+        if b.kind == 'Closure' or '::tests' in b.fname:
+            continue
+        calls = [(bb, t) for bb, t in b.calls(include_cleanup=False) if t['callee'].get('krate') == 'arc_swap']
+        wr = [(bb, t) for bb, t in calls if U.callee_name(t) in WR and not (t['callee'].get('trait') or '').startswith(SEALED)]
+        rd = [(bb, t) for bb, t in calls if U.callee_name(t) in RD and not (t['callee'].get('trait') or '').startswith(SEALED)]
+        if not wr or not rd:
+            continue
+        n += 1
+        thr = lambda t: [0] if U.callee_name(t) in ('into_inner', 'deref', 'clone', 'expect', 'unwrap', 'unwrap_or_else', 'as_ref', 'borrow', 'replace', 'from', 'into') else None
+        src = b.origins(0, through_calls=thr, fields=True) if 'fields' in b.origins.__code__.co_varnames else b.origins(0, through_calls=thr)
+        from_read = [bb for bb, t in rd if ('call', bb) in src]
+        from_write = [bb for bb, t in wr if ('call', bb) in src]
+        # a read that merely precedes the write loop (rcu's own `cur = load()`) is not a reply; a reply is a read AFTER a write
+        late = [r for r in from_read if any(b.reach_from(w, unwind=False) & {r} and r != w for w, _ in wr)]
+        # the cache case: the value handed back is the cached field refreshed by a revalidation next to a store
+        cached_reply = any(U.callee_name(t) == 'revalidate' for _, t in rd) and any(U.callee_name(t) == 'store' for _, t in wr) and b.local_ty(0) not in ('()', 'bool')
+        ok = not ((late and not from_write) or (cached_reply and not from_write))
+        col.add('WRITE-REPLY', '%s|answers with the write\'s own reply' % b.fname, ok,
+                'writes %s, reads %s; value returned derives from reads at %s and from writes at %s' % (sorted({U.callee_name(t) for _, t in wr}), sorted({U.callee_name(t) for _, t in rd}),
+                [b.loc(x) for x in from_read], [b.loc(x) for x in from_write]), b.loc(wr[0][0]))
+    col.ok('WRITE-REPLY', 'scan', 'bodies that both write and read a container: %d' % n)
+
+
 def rule_api_agnostic(fx, col):
     lib = fx.lib
     n = 0
@@ -728,6 +760,29 @@ def rule_serde_shape(fx, col):
 
 # --------------------------------------------------------------------------------------------
 # NO-STASH: nothing thread-local or static remembers a loaded pointer outside the debt slots
+
+def rule_serde_module(fx, col):
+    """C20 for anything else that lives in the serde module (a `#[serde(with = ..)]` helper added later): a function that takes the
+    caller's serializer serializes the loaded pointer as a whole through `T::serialize` — it does not look inside it and write the
+    pieces itself (a helper that writes `pointee.serialize(..)` for `Some(pointee)` drops the `Some` tag: not what the container's
+    own impl writes)."""
+    if not fx.has_feature('serde'):
+        return
+    n = 0
+    for b in fx.lib.bodies:
+        if not b.file.endswith('src/serde.rs') or '::tests' in b.fname or b.kind == 'Closure':
+            continue
+        calls = [(bb, t) for bb, t in b.calls(include_cleanup=False)]
+        loads = [(bb, t) for bb, t in calls if U.callee_name(t) in ('load', 'load_full') and t['callee'].get('krate') == 'arc_swap']
+        sers = [(bb, t) for bb, t in calls if t['callee'].get('krate') == 'serde' and (t['callee'].get('trait_pretty') or '').endswith(('Serialize', 'Serializer')) and not b.is_cleanup(bb)]
+        if not loads or not sers:
+            continue
+        n += 1
+        whole = [(bb, t) for bb, t in sers if U.callee_name(t) == 'serialize' and t['callee'].get('self_is_param') and b.origins(t['args'][0], through_calls=_deref_through) == {('call', loads[0][0])}]
+        col.add('SERDE-SHAPE', '%s|serializes the loaded pointer as a whole' % b.fname, len(sers) == 1 and len(whole) == 1,
+                '%d call(s) into serde: %s; exactly one, `T::serialize(&*guard, serializer)` on the loaded value itself' % (len(sers), [U.callee_name(t) for _, t in sers]), b.loc(sers[0][0]))
+    col.floor('SERDE-SHAPE', 'serializing functions in the serde module', n, 1)
+
 
 def rule_no_stash(fx, col):
     lib = fx.lib
